@@ -205,10 +205,16 @@ def check_text(r, cls, sub, gname, text, trees):
     if u2 != u:
         r.viol(f"text-not-stable/{cls}/{sub}", f"{text!r}: unparse(parse(unparse(.))) differs: {u!r} vs {u2!r}", case, u, u2)
         return
+    if cls == "smt-operator":
+        trees = trees[:3]  # these atoms go through Z3's fallback (slow); equality of the two ASTs is already established
     for root, dt in trees:
         try:
-            v1 = common.tv(evaluate(p1, dt, g))
-            v2 = common.tv(evaluate(p2, dt, g))
+            with time_cap(6):
+                v1 = common.tv(evaluate(p1, dt, g))
+                v2 = common.tv(evaluate(p2, dt, g))
+        except CaseTimeout:
+            r.caps["evaluation_6s_cap"] += 1
+            break
         except BaseException as e:  # noqa
             r.outcomes["evaluation-raised"] += 1
             continue
